@@ -98,6 +98,7 @@ Definition amd64_nocase : ctx_table :=
      ct_memo := ct_memo ctx_amd64; ct_memo_cmp := 1; ct_groups := ct_groups ctx_amd64;
      ct_sp_name := ct_sp_name ctx_amd64; ct_ip_name := ct_ip_name ctx_amd64;
      ct_sp_acc := ct_sp_acc ctx_amd64; ct_ip_acc := ct_ip_acc ctx_amd64;
+     ct_md_get := ct_md_get ctx_amd64; ct_md_valid := ct_md_valid ctx_amd64; ct_md_filter := ct_md_filter ctx_amd64;
      ct_fields := ct_fields ctx_amd64; ct_gpr := ct_gpr ctx_amd64 |}.
 Theorem c18_case_insensitive_memoize_rejected :
   memoize amd64_nocase n_RIP = Some n_rip /\
@@ -167,6 +168,7 @@ Definition arm_thumb_masked : ctx_table :=
      ct_ip_acc := ALet n_pc (ACast (ALoc l_arm_pc) 32 64)
                     (AIf (BNe (AAnd (ALoc l_arm_cpsr) (ALit 32)) (ALit 0))
                          (AAnd (AVar n_pc) (ANot (ALit 1) 64)) (AVar n_pc));
+     ct_md_get := ct_md_get ctx_arm; ct_md_valid := ct_md_valid ctx_arm; ct_md_filter := ct_md_filter ctx_arm;
      ct_fields := ct_fields ctx_arm; ct_gpr := ct_gpr ctx_arm |}.
 Theorem c18_masked_accessor_rejected :
   let c := arm_thumb_masked in
@@ -208,6 +210,22 @@ Theorem c18_enumerations : forall c, In c all_contexts -> forall rf,
 Proof. intros c Hc. exact (enumerations c (all_facts c Hc)). Qed.
 Print Assumptions c18_enumerations.
 
+(* MinidumpContext dispatch, all nine variants (the arms of get_register_always, get_register and
+   valid_registers are regenerated from the source as expressions over the forwarded CpuContext
+   call): the type-erased methods return exactly what the variant's own CpuContext methods
+   return - same value (widened, no mask, no truncation), same validity test, same panics *)
+Theorem c18_md_dispatch : forall c, In c all_contexts -> forall rf n v,
+  md_get_always c rf n = get_always c rf n /\
+  md_get_register c rf n v = get_register c rf n v /\
+  md_is_valid (ct_md_valid c) c rf n v = Ret (is_valid c n v) /\
+  md_is_valid (ct_md_filter c) c rf n v = Ret (is_valid c n v).
+Proof.
+  intros c Hc rf n v. pose proof (all_facts c Hc) as F.
+  split; [exact (md_get_always_eq c F rf n)|]. split; [exact (md_get_register_eq c F rf n v)|].
+  split; [exact (md_is_valid_eq c _ (f_md_valid c F) rf n v) | exact (md_is_valid_eq c _ (f_md_filter c F) rf n v)].
+Qed.
+Print Assumptions c18_md_dispatch.
+
 (* F-C18a: the SPARC table as it was before the fix (same get/set arms, no memoize_register
    and no register_is_valid arms): "o6" is accepted by set_register and read back by
    get_register_always, but the checked accessor reports it absent, and validity of g_r14
@@ -218,6 +236,7 @@ Definition sparc_before_fix : ctx_table :=
      ct_memo := []; ct_memo_cmp := 0; ct_groups := [];
      ct_sp_name := ct_sp_name ctx_sparc; ct_ip_name := ct_ip_name ctx_sparc;
      ct_sp_acc := ct_sp_acc ctx_sparc; ct_ip_acc := ct_ip_acc ctx_sparc; ct_fields := ct_fields ctx_sparc;
+     ct_md_get := ct_md_get ctx_sparc; ct_md_valid := ct_md_valid ctx_sparc; ct_md_filter := ct_md_filter ctx_sparc;
      ct_gpr := ct_gpr ctx_sparc |}.
 Definition n_o6 : name := [111; 54].
 Definition n_g_r14 : name := [103; 95; 114; 49; 52].
